@@ -208,6 +208,8 @@ func v16CmdSets() []v16Cfg {
 		{name: "unknown", cmds: []string{"CONNECT", "LISTEN"}, provFails: true},
 		{name: "emptyname", cmds: []string{""}, provFails: true},
 		{name: "unknown-placeholder", cmds: []string{"{env.VERIF_C16_NOPE}"}, provFails: true},
+		{name: "connect+bind", cmds: []string{"CONNECT", "BIND"}, connect: true, bind: true},
+		{name: "bind+associate", cmds: []string{"BIND", "ASSOCIATE"}, bind: true, assoc: true},
 	}
 }
 
